@@ -11009,7 +11009,7 @@ tsk_table_collection_check_integrity(
                    | TSK_CHECK_MIGRATION_ORDERING | TSK_CHECK_INDEXES;
     }
 
-    if (self->sequence_length <= 0) {
+    if (!tsk_isfinite(self->sequence_length) || self->sequence_length <= 0) {
         ret = tsk_trace_error(TSK_ERR_BAD_SEQUENCE_LENGTH);
         goto out;
     }
@@ -11550,7 +11550,7 @@ tsk_table_collection_read_format_data(tsk_table_collection_t *self, kastore_t *s
         ret = tsk_trace_error(TSK_ERR_FILE_FORMAT);
         goto out;
     }
-    if (L[0] <= 0.0) {
+    if (!tsk_isfinite(L[0]) || L[0] <= 0.0) {
         ret = tsk_trace_error(TSK_ERR_BAD_SEQUENCE_LENGTH);
         goto out;
     }
